@@ -51,6 +51,11 @@ def scale_action(action, c):
     return action.multiply(c)
 
 
+def ident_or_scale(action, c):
+    """function for Action.transform that hands the action back unchanged for one of the parameters"""
+    return action if c == 1 else action.multiply(c)
+
+
 def pick_action(action, label, dim=None, then_sum=None):
     """function for Action.transform whose result already carries `dim` as a scalar coordinate (select without drop)"""
     res = action.select({dim: label})
